@@ -18,6 +18,8 @@ def nontrivial(engine, opline):
     if engine == 'block':
         # non-trivial: a transaction line that was admitted (not a begin/end line, not refused at admission)
         return bool(t) and t[0] in ('eth', 'cos')
+    if engine == 'cpc':
+        return bool(t) and t[0] in ('cgen', 'cdep', 'cstk', 'cupd', 'cdis')
     if engine == 'calltree':
         return bool(t) and t[0] == 'tree'
     if engine == 'erc20':
@@ -162,6 +164,19 @@ PROPS['C12'] = dict(
     assumptions=['the interpreter (opcode semantics, 63/64 gas rule, read-only flag for LOG/SSTORE/value transfers) is the shared fork code, not modelled; the runner gives every call half of the remaining gas so that gas never decides an outcome',
                  'staking / bech32 methods enter through the regenerated method table (read-only => no write API reachable; writers => gas > 0; selector = ABI id), not through the call-tree model',
                  'the write census is syntactic (callee names over the package-local call graph)'],
+)
+
+PROPS['C17'] = dict(
+    lean_modules=['Model.Cpc', 'Properties.C17', 'Facts.CpcRegistry'],
+    facts=['*'],
+    theorems=['C17_type_immutable', 'C17_version_monotone', 'C17_only_whitelisted_add', 'C17_inv_run', 'C17_one_erc20_per_denom', 'C17_exposure',
+              'C17_genesis_inv', 'inv_step', 'step_cases', 'step_keeps_none', 'fact_newevm_wires_all_with_disabled'],
+    engines=[dict(name='cpc', test='TestEngineCpc', quick=600, thorough=12000, thorough_seeds=3)],
+    rule='epochs of [InitGenesis on a wiped cpc store with random flags and whitelist; 8-32 random ops: deploy ERC-20 (6 denominations incl. no-supply and invalid, odd decimals, empty symbol), deploy staking, update params (authority or not, versions 0/1/2, duplicate deployers), keeper-level enable/disable] through the real message server / keeper with per-op cache contexts; after each op the registry, reverse index, params, module sequence and the set of addresses callable through ApplyMessage and through the EthCall query path are compared; non-trivial = every line; distinct by op-line hash',
+    assumptions=['crypto.CreateAddress is injective in the nonce and never hits the two fixed addresses (hash assumption; the harness maps real addresses to model ids)',
+                 'metadata / params validity (ValidateBasic, Validate) is evaluated by the harness with the real functions and passed as booleans',
+                 'the keeper-level metadata update is modelled for the disabled flag only (no message reaches it; a caller changing the typed metadata of an ERC-20 entry could break the index agreement)',
+                 'check-tx and simulate modes build the EVM through the same NewEVM as deliver and query (regenerated call list); only deliver-context and query paths are executed'],
 )
 
 NOT_APPLICABLE = {}
